@@ -3,6 +3,7 @@ package bridge
 import (
 	"context"
 	"encoding/json"
+	"errors"
 	"fmt"
 
 	abci "github.com/cometbft/cometbft/abci/types"
@@ -147,7 +148,9 @@ func (am AppModule) EndBlock(ctx context.Context) error {
 		return nil
 	}
 	_, err := am.keeper.CompareAndSetBridgeValidators(sdkCtx)
-	if err != nil {
+	// an (momentarily) empty bridge validator set is not a reason to stop producing blocks:
+	// the last checkpoint simply stays in force until a registered validator has power again
+	if err != nil && !errors.Is(err, keeper.ErrNoValidatorsFound) {
 		return err
 	}
 
